@@ -808,3 +808,8 @@ impl<'a, A: Agent + 'static> AgentRouteTask<'a, A> {
         }
     }
 }
+
+#[cfg(feature = "verif_hooks")]
+pub mod verif_hooks {
+    pub use super::task::verif_hooks::*;
+}
